@@ -12,7 +12,7 @@
 // -fno-sanitize-recover. (The root cause is in Boost; GUDHI's copy constructor relies on it. Rebuilding the queue by
 // pushing the (priority, vertex) pairs of the original into the copy would avoid it.)
 //
-// Build: g++ -std=gnu++17 -O1 -g -fsanitize=address,undefined -I/tmp/seed/P16/src/Toplex_map/include defect_3.cpp -o defect_3
+// Build: g++ -std=gnu++17 -O1 -g -fsanitize=address,undefined -I/repo/src/Toplex_map/include defect_3.cpp -o defect_3
 // Needs the sanitizers: ASan fills fresh memory with 0xbe, UBSan checks the loaded bool; __ubsan_on_report counts.
 #include <gudhi/Lazy_toplex_map.h>
 #include <cstdio>
